@@ -5138,25 +5138,29 @@ class DfaCompileCtx:
                 def consider(transition):
                     return not any(x.get_target_override_mode() in [ActionOverrideMode.ALWAYS_GOTO_OTHER, ActionOverrideMode.ALWAYS_GOTO_UNDEFINED] and transition.target not in x.get_target_override_targets() for x in transition.actions)
 
-                def aux(x):
+                def aux(x, symbol):
                     if isinstance(x, DFConditionPoint):
                         for i in x.transitions:
                             if i.target in visited:
                                 continue
                             if consider(i):
                                 visited.add(i.target)
-                                aux(i.target)
+                                aux(i.target, symbol)
                     else:
-                        real_target = x[transition.on_values]
+                        real_target = x[symbol]
                         if real_target and real_target.is_fallthrough and consider(real_target):
                             if real_target.target not in visited:
                                 visited.add(real_target.target)
-                                aux(real_target.target)
-                
-                aux(state)
+                                aux(real_target.target, symbol)
 
-                if state in visited:
-                    raise IllegalDFAStateError("Infinite loop due to self-referential fallthrough", transition)
+                # follow each symbol on its own: the states further along may split the set of symbols
+                # this transition falls through on between several of their transitions
+                for symbol in transition.on_values:
+                    visited = set()
+                    aux(state, symbol)
+
+                    if state in visited:
+                        raise IllegalDFAStateError("Infinite loop due to self-referential fallthrough", transition)
         
 
     def compile(self):
